@@ -377,6 +377,15 @@ impl LoopRange {
     }
 }
 
+/// Read-only accessor for external runtime monitors (feature `verif-hooks`)
+#[cfg(feature = "verif-hooks")]
+impl LoopRange {
+    /// lower bound and optional upper bound of this range
+    pub fn verif_bounds(&self) -> (u32, Option<u32>) {
+        (self.0, self.1)
+    }
+}
+
 #[allow(clippy::uninlined_format_args)]
 #[cfg(test)]
 mod test {
